@@ -72,15 +72,22 @@ C15_Once ==
 \* ---- C15_Wakes ------------------------------------------------------------------------------
 KeyOKc(p) == p.ok /\ (tcz.kind = "decorator" => (p.av = tcz.pav /\ p.kind = tcz.pkind))
 QueuedIds == { <<p.ns, p.name>> : p \in { x \in Range(E.parsed) : KeyOKc(x) } }
-Changed == { ObjKey(T!Obj(E.evs[i])) : i \in { j \in DOMAIN E.evs : E.evs[j].type \in {"update", "delete", "tombstone"} } }
+ChangedObjs == { T!Obj(E.evs[i]) : i \in { j \in DOMAIN E.evs : E.evs[j].type \in {"update", "delete", "tombstone"} } }
+\* the rules in force for parent q: those asked for its present generation (the handlers ask the hook when the answer is
+\* not cached), else those of the generation whose related map was sent last
+RulesNow(q, lr) == IF Known(q) THEN RulesFor(q)
+                   ELSE IF <<lr.uid, lr.gen>> \in DOMAIN asked THEN asked[<<lr.uid, lr.gen>>] ELSE <<>>
 C15_Wakes ==
   (IsEv("Queue") /\ CustomOn)
   => \A pk \in DOMAIN lastRel :
-       \A k \in (Changed \cap lastRel[pk].keys) :
-         LET cand == { q \in Range(E.parents) : ObjKey(q) = pk /\ q.uid = lastRel[pk].uid /\ q.gen = lastRel[pk].gen /\ T!Cares(tcz, q) }
+       \A o \in { x \in ChangedObjs : ObjKey(x) \in lastRel[pk].keys } :
+         \* the parent as synced last -- or, when its generation moved on since (not synced again yet), as far as the
+         \* rules in force still select the object
+         LET cand == { q \in Range(E.parents) : /\ ObjKey(q) = pk /\ q.uid = lastRel[pk].uid /\ T!Cares(tcz, q)
+                                                 /\ (q.gen = lastRel[pk].gen \/ o \in Selected(RulesNow(q, lastRel[pk]), q, tcz.pNs, {o})) }
          IN \A q \in cand : \/ <<q.ns, q.name>> \in QueuedIds
-                            \/ Report("C15", "C15_Wakes", <<"object of the related map changed, parent not queued", "object", k,
-                                                            "parent", <<q.ns, q.name>>, "keys", E.keys>>)
+                            \/ Report("C15", "C15_Wakes", <<"object of the related map changed, parent not queued", "object", ObjKey(o),
+                                                            "parent", <<q.ns, q.name>>, "gen", q.gen, "synced at", lastRel[pk].gen, "keys", E.keys>>)
 
 \* ---- state ----------------------------------------------------------------------------------
 CInit == Init /\ tcz = NoTc /\ asked = <<>> /\ lastRel = <<>>
